@@ -57,30 +57,37 @@ Can == nact < MaxActions
 Log(rec, cs) == hist' = Append(hist, rec @@ [exp |-> AllExpected(cs)])
 
 NewConn(addr) == /\ Can /\ Len(conns) < MaxConns
-                 /\ conns' = Append(conns, [ads |-> <<>>, addr |-> addr])
+                 /\ conns' = Append(conns, [ads |-> <<>>, addr |-> addr, cls |-> "http"])
                  /\ Log([op |-> "newconn", addr |-> addr], conns')
                  /\ nact' = nact + 1 /\ UNCHANGED callers
 Wrap(p, args, aslist) ==
                  /\ Can /\ Len(conns) < MaxConns /\ p \in 1 .. Len(conns)
                  /\ (Len(args) > 1 => aslist)
-                 /\ conns' = Append(conns, [ads |-> args \o conns[p].ads, addr |-> conns[p].addr])
+                 /\ conns' = Append(conns, [ads |-> args \o conns[p].ads, addr |-> conns[p].addr, cls |-> "http"])
                  /\ Log([op |-> "wrap", parent |-> p, args |-> args, aslist |-> aslist], conns')
                  /\ nact' = nact + 1 /\ UNCHANGED callers
 AuthWrap(p, a) == /\ Can /\ Len(conns) < MaxConns /\ p \in 1 .. Len(conns) /\ ~HasAuth(conns[p].ads)
-                  /\ conns' = Append(conns, [ads |-> <<a>> \o conns[p].ads, addr |-> conns[p].addr])
+                  /\ conns' = Append(conns, [ads |-> <<a>> \o conns[p].ads, addr |-> conns[p].addr, cls |-> "auth"])
                   /\ Log([op |-> "authwrap", parent |-> p, auth |-> a], conns')
                   /\ nact' = nact + 1 /\ UNCHANGED callers
+(* a method caller uses a plain HttpConn as it is; any other connection object (an authenticating one) is  *)
+(* wrapped into a new plain connection, which copies the adapter list at that moment                         *)
 NewCaller(c) == /\ Can /\ c \in 1 .. Len(conns) /\ Len(callers) < 3
-                /\ callers' = Append(callers, [conn |-> c, cache |-> <<>>])
-                /\ Log([op |-> "newcaller", conn |-> c], conns)
-                /\ nact' = nact + 1 /\ UNCHANGED conns
+                /\ IF conns[c].cls = "http"
+                     THEN /\ callers' = Append(callers, [conn |-> c, cache |-> <<>>])
+                          /\ Log([op |-> "newcaller", conn |-> c, wrapped |-> FALSE], conns) /\ UNCHANGED conns
+                     ELSE /\ Len(conns) < MaxConns
+                          /\ conns' = Append(conns, [ads |-> conns[c].ads, addr |-> conns[c].addr, cls |-> "http"])
+                          /\ callers' = Append(callers, [conn |-> Len(conns) + 1, cache |-> <<>>])
+                          /\ Log([op |-> "newcaller", conn |-> c, wrapped |-> TRUE], conns')
+                /\ nact' = nact + 1
 (* clone: a new connection wrapping the caller's connection, a new caller with an EMPTY cache *)
 CloneCaller(m, args, form) ==
                 /\ Can /\ m \in 1 .. Len(callers) /\ Len(conns) < MaxConns /\ Len(callers) < 3
                 /\ form \in {"none", "single", "list"}
                 /\ (form = "none" <=> args = <<>>) /\ (Len(args) > 1 => form = "list")
                 /\ (\A i \in 1 .. Len(args) : IsAuth(args[i]) => ~HasAuth(conns[callers[m].conn].ads))
-                /\ conns' = Append(conns, [ads |-> args \o conns[callers[m].conn].ads, addr |-> conns[callers[m].conn].addr])
+                /\ conns' = Append(conns, [ads |-> args \o conns[callers[m].conn].ads, addr |-> conns[callers[m].conn].addr, cls |-> "http"])
                 /\ callers' = Append(callers, [conn |-> Len(conns) + 1, cache |-> <<>>])
                 /\ Log([op |-> "clone", caller |-> m, args |-> args, form |-> form], conns')
                 /\ nact' = nact + 1
@@ -95,10 +102,17 @@ GetConn(m, comp) ==
                      ELSE /\ Len(conns) < MaxConns
                           /\ conns' = Append(conns, [ads |-> << [k |-> "prefix", segs |-> pfx, trail |-> FALSE] >>
                                                               \o conns[callers[m].conn].ads,
-                                                     addr |-> conns[callers[m].conn].addr])
+                                                     addr |-> conns[callers[m].conn].addr, cls |-> "http"])
                           /\ callers' = [callers EXCEPT ![m].cache = (pfx :> (Len(conns) + 1)) @@ @]
                           /\ Log([op |-> "getconn", caller |-> m, comp |-> comp, result |-> Len(conns) + 1], conns')
                 /\ nact' = nact + 1
+(* add_adapter: the adapter joins the END of this connection's own effective list (as coded); the parent, and  *)
+(* connections derived from this one EARLIER, are not affected; connections derived later see it             *)
+AddAdapter(c, a) ==
+                /\ Can /\ c \in 1 .. Len(conns) /\ (IsAuth(a) => ~HasAuth(conns[c].ads))
+                /\ conns' = [conns EXCEPT ![c].ads = Append(@, a)]
+                /\ Log([op |-> "addadapter", conn |-> c, adapter |-> a], conns')
+                /\ nact' = nact + 1 /\ UNCHANGED callers
 (* an explicit request with varied arguments (the probes after every action use fixed arguments) *)
 Request(c, meth, data) ==
                 /\ Can /\ c \in 1 .. Len(conns)
@@ -118,14 +132,20 @@ Next == \/ \E addr \in {"http://h:1", "http://h:1/"} : NewConn(addr)
                \E f \in {"none", "single", "list"} : CloneCaller(m, args, f)
         \/ \E m \in 1 .. Len(callers) : \E comp \in Components : GetConn(m, comp)
         \/ \E c \in 1 .. Len(conns) : \E meth \in Methods : \E d \in DataKinds : Request(c, meth, d)
+        \/ \E c \in 1 .. Len(conns) : \E a \in Prefixes \cup Resps \cup Hdrs : AddAdapter(c, a)
         \/ Report
 Spec == Init /\ [][Next]_vars
 
 (* ---------------- checked by TLC ---------------- *)
 (* derivations never alter an existing connection *)
-Stable == [][\A c \in 1 .. Len(conns) : conns'[c] = conns[c]]_vars
+Stable == [][\A c \in 1 .. Len(conns) :
+               conns'[c] = conns[c] \/ (Len(hist') > Len(hist) /\ hist'[Len(hist')].op = "addadapter" /\ hist'[Len(hist')].conn = c)]_vars
 AtMostOneAuth == \A c \in 1 .. Len(conns) : Cardinality({ i \in 1 .. Len(conns[c].ads) : IsAuth(conns[c].ads[i]) }) <= 1
 (* a caller's cached prefixed connections are built on that caller's own connection *)
+(* (up to adapters added later with add_adapter, which never reach already derived connections)              *)
+IsPrefixOf(s, t) == Len(s) <= Len(t) /\ SubSeq(t, 1, Len(s)) = s
 CacheOwn == \A m \in 1 .. Len(callers) : \A pfx \in DOMAIN callers[m].cache :
-               conns[callers[m].cache[pfx]].ads = << [k |-> "prefix", segs |-> pfx, trail |-> FALSE] >> \o conns[callers[m].conn].ads
+               LET own == conns[callers[m].cache[pfx]].ads  base == conns[callers[m].conn].ads IN
+                 /\ own # <<>> /\ own[1] = [k |-> "prefix", segs |-> pfx, trail |-> FALSE]
+                 /\ \E n \in 0 .. Len(base) : IsPrefixOf(SubSeq(base, 1, n), Tail(own))
 =============================================================================
